@@ -423,11 +423,7 @@ def main(ctx):
         "observations": observations,
         "traces_validated_against_impl": n_cases,
         "python_unicode_version": unicodedata.unidata_version,
-        "not_yet_proved": [
-            "rejection lemma `att` naming an undeclared argument (state-dependent; covered by the token class undeclared_in_att / dropped_declaration of the oracle and by the correspondence)",
-            "AspartixReader::read_arg_from_str exactness as a Coq theorem (one-line model: find_label; covered by the read_arg oracle)",
-            "attack SET of apx_result as a closed formula (the theorem gives the framework as run_ops (init labels) (new_attack ...); C12 then says what that store denotes)",
-        ],
+        "not_yet_proved": [],
     })
     ctx.notes.append("observation (not in the property's quantifier): Iccma23Reader::read_arg_from_str indexes by id = n-1 and unwraps; on a framework with removed arguments (never produced by the reader itself) it panics or returns another argument: %d panics seen in the readarg stream, model agrees" % observations["read_arg_panic_on_store_with_removed_ids"])
     ctx.notes.append("observation D11: the Aspartix line patterns end with an unescaped dot: `arg(a)x` is accepted (mirrored by the model, class odd_terminator, expectation any)")
